@@ -390,7 +390,8 @@ class _Parser(config_parse_common._Parser):
         v2_er_header_ft_node = v2_dst_node.get(eht_prop_name)
 
         if v2_er_header_ft_node is not None:
-            v2_er_header_ft_fields_node = v2_er_header_ft_node['fields']
+            # a structure field type without a `fields` property has no fields
+            v2_er_header_ft_fields_node = v2_er_header_ft_node.get('fields')
 
         def_clk_type_name = None
 
@@ -478,7 +479,9 @@ class _Parser(config_parse_common._Parser):
             v2_pkt_header_ft_fields_node = collections.OrderedDict()
 
             if v2_pkt_header_ft_node is not None:
-                v2_pkt_header_ft_fields_node = v2_pkt_header_ft_node['fields']
+                # a structure field type without a `fields` property
+                # has no fields
+                v2_pkt_header_ft_fields_node = v2_pkt_header_ft_node.get('fields')
 
             v3_magic_ft_node = self._conv_ft_node_if_exists(v2_pkt_header_ft_fields_node, 'magic')
             v3_uuid_ft_node = self._conv_ft_node_if_exists(v2_pkt_header_ft_fields_node, 'uuid')
